@@ -917,6 +917,9 @@ func firstFrames(st string) string {
 
 // nondetSource: a wall-clock / randomness / goroutine source was reached on a chain-side path.
 func (it *Interp) nondetSource(what string) {
+	if it.inInit > 0 {
+		it.abort("nondeterministic source in a package initialiser: %s", what)
+	}
 	it.jr.Obligations++
 	r, err := it.S.Check(append(append([]*smt.Term{}, it.P.PC...), it.P.Exact...), it.Cfg.AssertTimeout)
 	if err != nil || r == smt.Unknown {
